@@ -20,15 +20,19 @@
    the literal [query] without virtual evidence returns the posterior (joint mode: C01_query_end_to_end) / the posterior
    marginals (per-variable mode: C01_query_end_to_end_per_variable) of the ORIGINAL network, for the greedy branch,
    elimination_order=None and every heuristic.
-   NOT proved in general: that the augmented
-   network of _virtual_evidence is again a valid_bn (C01_virtual_evidence is stated on the unnormalised answer,
-   which needs no such fact), so [query] WITH virtual evidence, and with an explicit elimination-order list or an empty
-   query list, is tied by the correspondence run. *)
+   The network augmented by _virtual_evidence (fresh binary child per entry) is again a valid network with the same
+   side properties (C01_virtual_model_good), hence [query] WITH virtual evidence returns the likelihood-weighted
+   posterior / posterior marginals of the ORIGINAL network (C01_query_vev_end_to_end, ..._per_variable).
+   The same for an EXPLICIT elimination-order list that enumerates the unqueried, unobserved nodes of the original
+   network (C01_query_list_end_to_end: both branches of _get_elimination_order on the pruned model).
+   An EMPTY query list prunes nothing and returns the posterior over no variable (C01_query_empty_end_to_end).
+   Still tied by the correspondence run only: an empty query list TOGETHER with virtual evidence, and order lists the
+   code rejects. *)
 From Coq Require Import List Arith Lia PeanoNat Bool QArith Qcanon Permutation.
 From PV Require Import Base.Semiring Base.Ravel Base.FinSum Base.RefFactor Base.VE Base.Graph
   C01.Model C01.Spec C01.Proofs C01.ProofsElim C01.ProofsMisc C01.ProofsIdx C01.ProofsFinal C01.ProofsEvid
   C01.ProofsQuery C01.ProofsPost C01.ProofsPrune C01.ProofsGreedy C01.ProofsVirt C01.ProofsDsep C01.ProofsTopo
-  C01.ProofsDsepAll.
+  C01.ProofsDsepAll C01.ProofsVevAll C01.ProofsOrderAll C01.ProofsEmptyQ.
 Import ListNotations.
 Local Open Scope nat_scope.
 
@@ -500,3 +504,122 @@ Example C01_query_end_to_end_nonvacuous :
   exists f, query ex_card (fun _ l => l) 3 ex_bn [2] [(1, 0)] [] EoNone true = inl [(0, f)] /\
             Qc_eq_bool (feval R ex_card f (fun _ => 0)) (posterior ex_card ex_bn [2] [(1, 0)] [] (fun _ => 0)) = true.
 Proof. exact query_end_to_end_nonvacuous. Qed.
+
+
+(* ============================ query WITH virtual evidence, as ONE statement ====================================
+   [good]: a valid network with non-negative entries whose CPDs have their own variable as first axis and whose node
+   ids are below the id() tags.  [vev_ok]: every virtual evidence (x, nv, vals) names a model variable x, a FRESH
+   child id nv (not a node, not observed, distinct from the other children: what _virtual_evidence picks), binary nv,
+   one likelihood in [0, 1] per state of x.  The augmented network is again [good]: *)
+Theorem C01_virtual_model_good :
+  forall (card : var -> nat) (idbase : nat) (vev : list (var * var * list Qc)) (b : bn) (ev : list (var * nat)),
+  good card idbase b -> vev_ok card idbase b ev vev ->
+  good card idbase (virtual_model b vev) /\
+  (forall v, In v (nodes (bn_g (virtual_model b vev))) <->
+             In v (nodes (bn_g b)) \/ In v (map (fun t => snd (fst t)) vev)).
+Proof. exact virtual_model_good. Qed.
+Print Assumptions C01_virtual_model_good.
+
+(* ... hence the literal [query] with virtual evidence (augment, observe the children at state 0, prune, eliminate,
+   normalise) returns Spec.posterior of the ORIGINAL network weighted by the likelihood vectors; every network size,
+   every number of virtual evidences, greedy / None / heuristic orders, every set-iteration parameter. *)
+Theorem C01_query_vev_end_to_end :
+  forall (card : var -> nat) (ord : forall A : Type, list A -> list A) (idbase : nat),
+  (forall A (l : list A), Permutation (ord A l) l) -> (forall v, 0 < card v) ->
+  forall (b : bn) (Q : list var) (ev : list (var * nat)) (vev : list (var * var * list Qc)),
+  good card idbase b -> vev_ok card idbase b ev vev ->
+  NoDup (map fst ev) -> (forall x, In x (map fst ev) -> In x (nodes (bn_g b))) ->
+  (forall e, In e ev -> snd e < card (fst e)) ->
+  NoDup Q -> Q <> [] -> (forall q, In q Q -> In q (nodes (bn_g b)) /\ ~ In q (map fst ev)) ->
+  pev card b Q ev (likelihoods vev) <> 0%Qc ->
+  forall e : eo, (e = EoGreedy \/ e = EoNone \/ exists h, e = EoHeur h) ->
+  exists f, query card ord idbase b Q ev vev e true = inl [(0, f)] /\
+            forall a, valid card a -> feval R card f a = posterior card b Q ev (likelihoods vev) a.
+Proof. exact query_vev_end_to_end. Qed.
+Print Assumptions C01_query_vev_end_to_end.
+
+Theorem C01_query_vev_end_to_end_per_variable :
+  forall (card : var -> nat) (ord : forall A : Type, list A -> list A) (idbase : nat),
+  (forall A (l : list A), Permutation (ord A l) l) -> (forall v, 0 < card v) ->
+  forall (b : bn) (Q : list var) (ev : list (var * nat)) (vev : list (var * var * list Qc)),
+  good card idbase b -> vev_ok card idbase b ev vev ->
+  NoDup (map fst ev) -> (forall x, In x (map fst ev) -> In x (nodes (bn_g b))) ->
+  (forall e, In e ev -> snd e < card (fst e)) ->
+  NoDup Q -> Q <> [] -> (forall q, In q Q -> In q (nodes (bn_g b)) /\ ~ In q (map fst ev)) ->
+  pev card b Q ev (likelihoods vev) <> 0%Qc ->
+  forall e : eo, (e = EoGreedy \/ e = EoNone \/ exists h, e = EoHeur h) ->
+  exists res, query card ord idbase b Q ev vev e false = inl res /\
+    forall q f a, valid card a -> In (q, f) res ->
+      In q Q /\ feval R card f a = posterior_marginal card b Q ev (likelihoods vev) q a.
+Proof. exact query_vev_end_to_end_per_variable. Qed.
+Print Assumptions C01_query_vev_end_to_end_per_variable.
+
+(* non-vacuity: the chain network with a likelihood (1/4, 3/4) on node 1 (fresh child id 3) *)
+Example C01_query_vev_nonvacuous :
+  let vev := [(1, 3, [ex_q 1 4; ex_q 3 4])] in
+  good ex_card 4 ex_bn /\ vev_ok ex_card 4 ex_bn [] vev /\
+  pev ex_card ex_bn [2] [] (likelihoods vev) <> 0%Qc /\
+  exists f, query ex_card (fun _ l => l) 4 ex_bn [2] [] vev EoNone true = inl [(0, f)] /\
+            Qc_eq_bool (feval R ex_card f (fun _ => 0)) (posterior ex_card ex_bn [2] [] (likelihoods vev) (fun _ => 0)) = true.
+Proof. exact vev_nonvacuous. Qed.
+
+
+(* ---- explicit elimination-order list (with or without virtual evidence; vev = [] is allowed by [vev_ok]).
+   _get_elimination_order runs on the PRUNED model: list members that were pruned away are filtered out and then no
+   coverage check is made (as coded); otherwise the list must equal the set to eliminate.  For every duplicate-free
+   list that enumerates exactly the nodes of the ORIGINAL network that are neither queried nor observed, both branches
+   yield a permutation of what is left to eliminate, and the answer is the (likelihood-weighted) posterior in joint
+   mode and its marginals in per-variable mode. *)
+Theorem C01_query_list_end_to_end :
+  forall (card : var -> nat) (ord : forall A : Type, list A -> list A) (idbase : nat),
+  (forall A (l : list A), Permutation (ord A l) l) -> (forall v, 0 < card v) ->
+  forall (b : bn) (Q : list var) (ev : list (var * nat)) (vev : list (var * var * list Qc)) (l : list var),
+  good card idbase b -> vev_ok card idbase b ev vev ->
+  NoDup (map fst ev) -> (forall x, In x (map fst ev) -> In x (nodes (bn_g b))) ->
+  (forall e, In e ev -> snd e < card (fst e)) ->
+  NoDup Q -> Q <> [] -> (forall q, In q Q -> In q (nodes (bn_g b)) /\ ~ In q (map fst ev)) ->
+  pev card b Q ev (likelihoods vev) <> 0%Qc ->
+  NoDup l -> (forall v, In v l <-> In v (rest b Q (map fst ev))) ->
+  (exists f, query card ord idbase b Q ev vev (EoList l) true = inl [(0, f)] /\
+             forall a, valid card a -> feval R card f a = posterior card b Q ev (likelihoods vev) a) /\
+  (exists res, query card ord idbase b Q ev vev (EoList l) false = inl res /\
+     forall q f a, valid card a -> In (q, f) res ->
+       In q Q /\ feval R card f a = posterior_marginal card b Q ev (likelihoods vev) q a).
+Proof. exact query_list_end_to_end. Qed.
+Print Assumptions C01_query_list_end_to_end.
+
+(* non-vacuity: order [0] when node 0 is pruned away (the filter branch), and order [0; 1] with a virtual evidence *)
+Example C01_query_list_nonvacuous :
+  (exists f, query ex_card (fun _ l => l) 4 ex_bn [2] [(1, 0)] [] (EoList [0]) true = inl [(0, f)] /\
+     Qc_eq_bool (feval R ex_card f (fun _ => 0)) (posterior ex_card ex_bn [2] [(1, 0)] [] (fun _ => 0)) = true) /\
+  (let vev := [(0, 3, [ex_q 1 4; ex_q 3 4])] in
+   exists f, query ex_card (fun _ l => l) 4 ex_bn [2] [] vev (EoList [0; 1]) true = inl [(0, f)] /\
+     Qc_eq_bool (feval R ex_card f (fun _ => 0)) (posterior ex_card ex_bn [2] [] (likelihoods vev) (fun _ => 0)) = true).
+Proof. exact list_nonvacuous. Qed.
+
+
+(* ---- empty query list: _prune_bayesian_model then treats every node as a query variable; every node is d-connected
+   to itself or observed, so nothing is pruned (the pruned graph has the node and edge lists of the original one,
+   every CPD is kept) and the answer is the posterior over no variable.  Every valid network (no sign condition
+   needed), greedy / None / heuristic / explicit-list orders. *)
+Theorem C01_query_empty_end_to_end :
+  forall (card : var -> nat) (ord : forall A : Type, list A -> list A) (idbase : nat),
+  (forall A (l : list A), Permutation (ord A l) l) -> (forall v, 0 < card v) ->
+  forall (b : bn) (ev : list (var * nat)),
+  valid_bn card b -> (forall v, In v (nodes (bn_g b)) -> v < idbase) ->
+  NoDup (map fst ev) -> (forall x, In x (map fst ev) -> In x (nodes (bn_g b))) ->
+  (forall e, In e ev -> snd e < card (fst e)) ->
+  pev card b [] ev [] <> 0%Qc ->
+  forall e : eo,
+  (e = EoGreedy \/ e = EoNone \/ (exists h, e = EoHeur h) \/
+   exists l, e = EoList l /\ NoDup l /\ forall v, In v l <-> In v (rest b [] (map fst ev))) ->
+  exists f, query card ord idbase b [] ev [] e true = inl [(0, f)] /\
+            forall a, valid card a -> feval R card f a = posterior card b [] ev [] a.
+Proof. exact query_empty_end_to_end. Qed.
+Print Assumptions C01_query_empty_end_to_end.
+
+Example C01_query_empty_nonvacuous :
+  exists f, query ex_card (fun _ l => l) 4 ex_bn [] [(1, 0)] [] EoNone true = inl [(0, f)] /\
+            Qc_eq_bool (feval R ex_card f (fun _ => 0)) 1%Qc = true /\
+            Qc_eq_bool (posterior ex_card ex_bn [] [(1, 0)] [] (fun _ => 0)) 1%Qc = true.
+Proof. exact empty_query_nonvacuous. Qed.
